@@ -213,6 +213,7 @@ def make_label_source(env: Env, idx: int, spec: Dict[str, Any], broker: Any) -> 
     """The real LabelScheduleSource over tasks declared with schedule labels; get_schedules/post_send are observed."""
     from taskiq.schedule_sources import LabelScheduleSource
 
+    groups: Dict[int, List[Dict[str, Any]]] = {}
     for sp in spec.get("sched", []):
         sid = sp["sid"]
         if sp["kind"] == "cron":
@@ -223,10 +224,12 @@ def make_label_source(env: Env, idx: int, spec: Dict[str, Any], broker: Any) -> 
             entry = {"time": T.replace(tzinfo=None) if sp.get("naive") else T}
         entry.update({"args": PAYLOAD_ARGS + [sid], "kwargs": dict(PAYLOAD_KW, sid=sid), "labels": {"lbl": f"L{sid}", "n": sid}})
 
+        groups.setdefault(sp.get("ltask", sid), []).append(entry)      # several entries may be declared on one task
+    for g, entries in groups.items():
         async def fn(*a: Any, **k: Any) -> None:
             return None
-        fn.__name__ = f"lfn{sid}"
-        broker.register_task(fn, task_name=f"task{sid}", schedule=[entry])
+        fn.__name__ = f"lfn{g}"
+        broker.register_task(fn, task_name=f"task{g}", schedule=entries)
 
     class ObservedLabelSource(LabelScheduleSource):
         npolls = 0
@@ -239,11 +242,11 @@ def make_label_source(env: Env, idx: int, spec: Dict[str, Any], broker: Any) -> 
             if fail:
                 raise ConnectionError("source down")
             res = await super().get_schedules()
-            env.rec("listed", src=idx, n=n, ids=sorted(int(t.task_name[4:]) for t in res))
+            env.rec("listed", src=idx, n=n, ids=sorted(int(t.kwargs["sid"]) for t in res))
             return res
 
         def post_send(self, scheduled_task: ScheduledTask) -> None:
-            env.rec("postsend", src=idx, sid=int(scheduled_task.task_name[4:]))
+            env.rec("postsend", src=idx, sid=int(scheduled_task.kwargs["sid"]))
             super().post_send(scheduled_task)
 
     return ObservedLabelSource(broker)
@@ -267,7 +270,8 @@ class RecBroker(AsyncBroker):
             sid = tm.kwargs["sid"]               # a schedule created without an explicit id: the id on the wire is a generated one
             noid = True
         if sid == 0 and tm.task_name.startswith("task") and tm.task_name[4:].isdigit() and sid_l:
-            sid = int(tm.task_name[4:])          # label-based source: generated schedule ids, one entry per task
+            # label-based source: generated schedule ids; the entry is recognised by its own arguments
+            sid = tm.kwargs["sid"] if isinstance(tm.kwargs.get("sid"), int) else int(tm.task_name[4:])
             from_label_source = True
         self.nk[sid] = self.nk.get(sid, 0) + 1
         fail = [sid, self.nk[sid]] in self.cfg.get("kickfail", [])
@@ -322,7 +326,7 @@ def normalize(cfg: Dict[str, Any]) -> Dict[str, Any]:
 def norm_sched(x: Dict[str, Any]) -> Dict[str, Any]:
     return {"sid": x["sid"], "kind": x["kind"], "mins": list(x.get("mins", [])), "T": x.get("T", 0), "cancel": bool(x.get("cancel", False)),
             "naive": bool(x.get("naive", False)), "tn": x.get("tn", 0), "lblsid": bool(x.get("lblsid", False)),
-            "viak": bool(x.get("viak", False)), "tzh": int(x.get("tzh", 0)), "noid": bool(x.get("noid", False)), "bad": bool(x.get("bad", False))}
+            "ltask": int(x.get("ltask", 0) or x["sid"]), "viak": bool(x.get("viak", False)), "tzh": int(x.get("tzh", 0)), "noid": bool(x.get("noid", False)), "bad": bool(x.get("bad", False))}
 
 
 def run(scn: Dict[str, Any]) -> List[Dict[str, Any]]:
